@@ -884,18 +884,32 @@ pub fn drive(args: &[String]) {
         let mut ops: Vec<Op> = Vec::new();
         let mut failed = false;
         let nops = rng.range(12, 30);
+        // membership probes owed after a long set was built: (register, item)
+        let mut probes: Vec<(usize, u128)> = Vec::new();
         for _ in 0..nops {
             let (a, b, dst) = (rng.below(6) as usize, rng.below(6) as usize, rng.below(6) as usize);
+            if let Some((pa, x)) = probes.pop() {
+                match g(|| regs[pa].contains_range(to_raw(fam, (x, x)))) {
+                    Ok(res) => ops.push(Op::Item { a: pa, x, res }),
+                    Err(_) => { failed = true; break; }
+                }
+                continue;
+            }
             let r = g(|| -> Result<Op, String> {
                 Ok(match rng.below(10) {
                     0..=2 => {
-                        let k = rng.range(0, 6);
+                        // now and then a long list of short blocks, so that the canonical form has well over eight blocks
+                        let long = rng.chance(1, 4);
+                        let k = if long { rng.range(9, 18) } else { rng.range(0, 6) };
                         let mut inp = Vec::new();
                         for _ in 0..k {
                             let x = *rng.pick(&pool);
                             let y = *rng.pick(&pool);
-                            let (lo, hi) = if rng.chance(1, 3) { (x, x) } else { (x.min(y), x.max(y)) };
+                            let (lo, hi) = if long || rng.chance(1, 3) { (x, x) } else { (x.min(y), x.max(y)) };
                             inp.push((lo, hi));
+                        }
+                        if long {
+                            probes = inp.iter().map(|b| (dst, b.0)).collect();
                         }
                         let raw: Vec<Raw> = inp.iter().map(|&bk| to_raw(fam, bk)).collect();
                         let set = Set::build(fam, &raw, rng.chance(1, 2));
